@@ -212,6 +212,29 @@ def general_expect(obj, conc):
     return out
 
 
+def check_general(what, case, obj, conc, got):
+    fails = []
+    exp = render(case["doc"], conc, obj)
+    g = got.get("general")
+    if g is None:
+        return ["%s: no [general] section written" % what]
+    eg = dict(exp["general"])
+    keys = {(conc.uid(t) if obj["keyby"] == "uid" else conc.vid(t)): t for t in obj["tops"]}
+    eg["variant"] = main_arg(obj, conc) or min(keys)
+    eg.update({k: v for k, v in general_expect(obj, conc).items()})
+    for k, v in eg.items():
+        if v is None:
+            if k in g:
+                fails.append("%s: [general] %s = %r although the main variant has no such path" % (what, k, g[k]))
+        elif g.get(k) != v:
+            fails.append("%s: [general] %s = %r, authoritative sections say %r" % (what, k, g.get(k), v))
+    if g.get("family") != got.get("release", {}).get("name") or g.get("version") != got.get("release", {}).get("version"):
+        fails.append("%s: [general] family/version do not mirror [release]" % what)
+    if g.get("arch") != got.get("tree", {}).get("arch") or g.get("platforms") != got.get("tree", {}).get("platforms"):
+        fails.append("%s: [general] arch/platforms do not mirror [tree]" % what)
+    return fails
+
+
 def evaluate(case):
     from productmd.treeinfo import TreeInfo
     conc = Conc(case.get("rot", 0), case.get("pct", False))
@@ -231,22 +254,20 @@ def evaluate(case):
     exp = render(case["doc"], conc, obj)
     fails = []
     if focus == "C17":
-        g = got.get("general")
-        if g is None:
-            return ["%s: no [general] section written" % what]
-        eg = dict(exp["general"])
-        eg.update({k: v for k, v in general_expect(obj, conc).items()})
-        for k, v in eg.items():
-            if v is None:
-                if k in g:
-                    fails.append("%s: [general] %s = %r although the main variant has no such path" % (what, k, g[k]))
-            elif g.get(k) != v:
-                fails.append("%s: [general] %s = %r, authoritative sections say %r" % (what, k, g.get(k), v))
-        # cross-section mirror inside the real output
-        if g.get("family") != got.get("release", {}).get("name") or g.get("version") != got.get("release", {}).get("version"):
-            fails.append("%s: [general] family/version do not mirror [release]" % what)
-        if g.get("arch") != got.get("tree", {}).get("arch") or g.get("platforms") != got.get("tree", {}).get("platforms"):
-            fails.append("%s: [general] arch/platforms do not mirror [tree]" % what)
+        fails = check_general(what, case, obj, conc, got)
+        # the same object written again with every other choice of main variant (and none): [general] follows the call
+        for other in ["default"] + sorted(obj["tops"]):
+            if other == obj["main"] or fails:
+                continue
+            o2 = dict(obj, main=other)
+            try:
+                f = io.StringIO()
+                t.dump(f, main_variant=main_arg(o2, conc))
+            except Exception as exc:
+                fails.append("%s: second dump with main variant %r raised %s: %s" % (what, other, type(exc).__name__, exc))
+                continue
+            c2 = dict(case, obj=o2)
+            fails += check_general("%s then dumped again with main=%s" % (what, other), c2, o2, conc, ini_parse(f.getvalue()))
         return fails[:5]
     exp_ng = {k: v for k, v in exp.items() if k != "general"}
     why = contains(exp_ng, got)
